@@ -321,6 +321,12 @@ def run(tier="quick", seed=1, work=None, replay=None, focus="C01", ncases=None):
             for nm_ in ("sentinel.txt", "big_sentinel.bin"): os.utime(os.path.join(out_root, nm_), ns=(BASE_T * 10**9, BASE_T * 10**9))
             materialize(src_root, src, subst); materialize(dst_root, dst, subst)
             for nm_, body in leftovers: open(os.path.join(dst_root, nm_), "wb").write(body)
+            if focus == "C08" and rng.chance(1, 3) and not any(x.startswith("--min-size") or x.startswith("--max-size") for x in flags):
+                # a VALID resume state compatible with this run's flags (an older version's): a dry run must leave it alone too
+                import cache_stream
+                done = [r for r, n in src.items() if n["k"] == "f" and r.isascii()][:3]
+                cache_stream.valid_resume_state(dst_root, src_root, done, delete=bool(cfg.get("delete")))
+                rep.tag("c08.leftover.valid-resume-state")
             if focus == "C05":
                 parallel_twin(rep, contents, ci, seed, case_dir, src_root, dst_root, flags, cfg, env)
             res = one_case(rep, drv, contents, focus, ci, seed, case_dir, src_root, dst_root, out_root, flags, cfg, env, excl)
